@@ -12,8 +12,9 @@
  *   - success:  WF', every live entry of the pre-state is still there, byte
  *     for byte (inode, name_len, file_type, name), exactly ONE more live entry
  *     exists and it is (ino, name, type) -> listing' = listing + entry;
- *   - EXT2_ET_DIR_NO_SPACE: nothing on disk changed, and really no single
- *     record had room (live record with slack >= need, or free record >= need);
+ *   - EXT2_ET_DIR_NO_SPACE: the listing is unchanged (free records may have been
+ *     coalesced, WF' still holds), and really no single record had room (live
+ *     record with slack >= need, or free record >= need);
  *   - no other return value; checksum hook runs before every write.
  */
 #include "dirblk_pre.h"
